@@ -560,23 +560,33 @@ fn encode_side(p: PDU) {
     forget(e);
     forget(hb);
 }
-//# funcs=PDU::encode,PDU::encoded_len,PDUHeader::encode,crc16_ibm_3740; bound=ACK / KeepAlive / file data (2 bytes) payloads, id widths (1,8),(8,2), CRC on+small flag and CRC off+large flag; stubs=S3,S7
-h!(#[kani::stub(cfdp_core::pdu::PDUPayload::encode, payload_encode_stub)] c05_q_pdu_encode_side, 40, {
-    widths(&[(1u8, 8u8), (8, 2)], || {
-        for (crc, flag) in [(CRCFlag::Present, FileSizeFlag::Small), (CRCFlag::NotPresent, FileSizeFlag::Large)] {
-            let ack = Operations::Ack(PositiveAcknowledgePDU {
-                directive: PDUDirective::Finished,
-                directive_subtype_code: ACKSubDirective::Finished,
-                condition: condition(),
-                transaction_status: tx_status(),
-            });
-            encode_side(whole(PDUPayload::Directive(ack), crc, flag));
-            encode_side(whole(PDUPayload::Directive(Operations::KeepAlive(KeepAlivePDU { progress: fsv(flag) })), crc, flag));
-            encode_side(whole(
-                PDUPayload::FileData(FileDataPDU::Unsegmented(UnsegmentedFileData { offset: fsv(flag), file_data: bytes(2) })),
-                crc,
-                flag,
-            ));
-        }
+fn encode_side_cases(crc: CRCFlag, flag: FileSizeFlag) {
+    let ack = Operations::Ack(PositiveAcknowledgePDU {
+        directive: PDUDirective::Finished,
+        directive_subtype_code: ACKSubDirective::Finished,
+        condition: condition(),
+        transaction_status: tx_status(),
+    });
+    encode_side(whole(PDUPayload::Directive(ack), crc, flag));
+    encode_side(whole(PDUPayload::Directive(Operations::KeepAlive(KeepAlivePDU { progress: fsv(flag) })), crc, flag));
+    encode_side(whole(
+        PDUPayload::FileData(FileDataPDU::Unsegmented(UnsegmentedFileData { offset: fsv(flag), file_data: bytes(2) })),
+        crc,
+        flag,
+    ));
+}
+//# funcs=PDU::encode,PDU::encoded_len,PDUHeader::encode,crc16_ibm_3740; bound=ACK / KeepAlive / file data (2 bytes) payloads, id widths (1,8), CRC on, small flag; stubs=S3,S7
+h!(#[kani::stub(cfdp_core::pdu::PDUPayload::encode, payload_encode_stub)] c05_q_pdu_encode_side_crc, 40, {
+    widths(&[(1u8, 8u8)], || encode_side_cases(CRCFlag::Present, FileSizeFlag::Small));
+});
+//# funcs=PDU::encode,PDU::encoded_len,PDUHeader::encode; bound=ACK / KeepAlive / file data (2 bytes) payloads, id widths (1,8), CRC off, large flag; stubs=S3,S7
+h!(#[kani::stub(cfdp_core::pdu::PDUPayload::encode, payload_encode_stub)] c05_q_pdu_encode_side_nocrc, 40, {
+    widths(&[(1u8, 8u8)], || encode_side_cases(CRCFlag::NotPresent, FileSizeFlag::Large));
+});
+//# funcs=PDU::encode,PDU::encoded_len,PDUHeader::encode,crc16_ibm_3740; bound=as above, id widths (8,2), CRC on+small and CRC off+large; stubs=S3,S7
+h!(#[kani::stub(cfdp_core::pdu::PDUPayload::encode, payload_encode_stub)] c05_t_pdu_encode_side_wide, 40, {
+    widths(&[(8u8, 2u8)], || {
+        encode_side_cases(CRCFlag::Present, FileSizeFlag::Small);
+        encode_side_cases(CRCFlag::NotPresent, FileSizeFlag::Large);
     });
 });
